@@ -148,9 +148,38 @@ def run_apply(idx, rng, sh):
         if rng.random() < 0.5:
             extra.reverse()
         comp = (sdata, model_apply(odata, orel, syms, le, rela, table))
+    groups = None
+    if rng.random() < 0.25:
+        # same-named sections, one per section group (what -fdebug-types-section writes): each has a relocation section of
+        # its own, told apart by sh_info alone; sizes differ so that foreign offsets would not even fit
+        E = '<' if le else '>'
+        relsz = ((24 if rela else 16) if cls == 64 else (12 if rela else 8))
+        groups = []
+        gsecs = []
+        for gi in range(rng.choice([2, 3])):
+            gsize = rng.choice([12, 40, 90])
+            gdata = bytes(gsize) if zero else bytes(rng.getrandbits(8) for _ in range(gsize))
+            grel = []
+            for _ in range(rng.choice([1, 2, 3])):
+                typ = rng.choice(list(table))
+                w = table[typ][0]
+                grel.append((rng.choice([gsize - w, rng.randrange(0, gsize - w + 1)]), rng.randrange(len(syms)), typ, rng.choice([0, 4, -4]) if rela else 0))
+            tsec = elfgen.Sec('.debug_types', 1, flags=0x200, data=gdata)
+            rsec = elfgen.Sec(('.rela' if rela else '.rel') + '.debug_types', 4 if rela else 9, flags=0x240,
+                              data=b''.join(pack_rel(E, cls, mach == 8 and cls == 64, *r, rela) for r in grel), link='.symtab', info=tsec,
+                              entsize=relsz, align=8)
+            gsecs += [tsec, rsec] if rng.random() < 0.7 else [rsec, tsec]
+            groups.append(model_apply(gdata, grel, syms, le, rela, table))
+        extra = list(extra) + gsecs
     img, info = build_rel_image(rng, mach, cls, le, rela, relocs, syms, secdata, etype=rng.choice([1, 1, 1, 3]), extra=extra)
     want = model_apply(secdata, relocs, syms, le, rela, table)
     di = ELFFile(io.BytesIO(img)).get_dwarf_info(relocate_dwarf_sections=True)
+    if groups:
+        got_t = di.debug_types_sec.stream.getvalue()
+        if got_t not in groups:
+            raise Bad('one of several same-named sections was not relocated by the relocation section whose sh_info designates it (%s)' % name,
+                      cls=cls, le=le)
+        sh.count('same_named_section_groups')
     if comp:
         if di.debug_str_sec.stream.getvalue() != comp[0]:
             raise Bad('a section without relocations of its own was changed (.debug_str beside .rel[a].debug_str_offsets)', cls=cls, le=le)
